@@ -579,6 +579,14 @@ def c04_programs(backend, tier):
         "Select(EventDataset('ds'), lambda e: e.PRIM('A').Select(lambda j: j.vals().Count() == 0 or j.vals()[0] > 1))",
         "Select(SelectMany(EventDataset('ds'), lambda e: e.PRIM('A')).Where(lambda j: j.vals().Count() > 2), lambda j: j.vals()[2])",
         "Select(SelectMany(EventDataset('ds'), lambda e: e.PRIM('A')), lambda j: j.ivals()[j.nTrk()])",
+        # Range with reversed / equal constant bounds is empty (no fault), as in python
+        "Select(EventDataset('ds'), lambda e: Range(3, 2).Select(lambda i: i * 2))",
+        "Select(EventDataset('ds'), lambda e: Range(2, 2).Count())",
+        "Select(EventDataset('ds'), lambda e: e.PRIM('A').Select(lambda j: Range(2, 0).Select(lambda i: j.pt() * i)))",
+        "Select(EventDataset('ds'), lambda e: Range(0, 3).Select(lambda i: i + 1))",
+        # First of a sequence of sequences: the first inner sequence (known finding KF-first-of-nested-sequence)
+        "Select(EventDataset('ds'), lambda e: e.PRIM('A').Select(lambda j: j.vals().Select(lambda v: v * 2)).First())",
+        "Select(Where(EventDataset('ds'), lambda e: e.PRIM('A').Count() > 0), lambda e: e.PRIM('A').Select(lambda j: j.vals().Select(lambda v: v * 2)).First())",
         # a vector column filled BEFORE an unguarded partial operation of the same row (the fault comes after the push_backs)
         "Select(EventDataset('ds'), lambda e: (e.PRIM('A').Select(lambda j: j.eta()), e.SEC('B').Select(lambda t: t.pt()).First(), e.PRIM('A').Count()))",
         "Select(EventDataset('ds'), lambda e: {'v': e.PRIM('A').Select(lambda j: j.pt()), 'f': e.SEC('B').First().pt()})",
@@ -734,6 +742,10 @@ def c13_programs(backend, tier):
                 if ka == "intlit" and kb == "intlit":
                     continue
                 add(f"{a} {op} {b}", ("binop", op, ka, kb))
+    # aggregate seeds that are computed by the query itself (known finding KF-aggregate-computed-seed)
+    for seed in ("e.PRIM('A').Count()", "e.PRIM('A').Count() + 1", "e.PRIM('A').Select(lambda k: k.pt()).Sum()"):
+        q = f"Select(EventDataset('ds'), lambda e: e.PRIM('A').Select(lambda j: j.pt()).Aggregate({seed}, lambda acc, v: acc + v))".replace("PRIM", P)
+        out.append(make_program(q, backend, tags=("aggregate", "computed-seed")))
     # python builtins the documentation does not list: refusing is fine, accepting them with C++ integer semantics is not
     for expr in ("int(j.pt()) / 2", "int(j.pt())", "float(j.nTrk()) / 2", "max(j.pt(), 2)", "min(j.nTrk(), 2.5)", "max(j.pt(), j.eta())",
                  "round(j.pt()) / 2", "int(j.pt()) % 2", "abs(int(j.pt())) / 2"):
@@ -856,7 +868,7 @@ def c18_programs(backend):
             out.append(make_program(f"Select(EventDataset('ds'), lambda e: e.PRIM('A').Select(lambda j: j.getAttributeFloat({lit}) + j.getAttributeFloat('other')))".replace("PRIM", P), backend, tags=("literals", "string")))
     # negative literals, as source text (-5 = unary minus of 5) and as the single constant node a captured python
     # variable becomes ('fold_neg'), in every operator context: the literal must not fuse with what precedes it
-    negs = ["-5", "-1.5", "-0.0", "-2147483647", "-1e-05"]
+    negs = ["-5", "-1.5", "-0.0", "-2147483647", "-2147483648", "-1e-05"]
     ctx = ["j.pt() - {K}", "{K} - j.pt()", "j.pt() + {K}", "j.pt() * {K}", "j.pt() / {K}", "-{K}", "j.nTrk() - {K}", "{K} - {K}",
            "(j.pt() - {K}) - {K}", "{K} if j.pt() > {K} else j.pt() - {K}", "abs({K}) - {K}"]
     for k in negs:
@@ -1077,6 +1089,7 @@ def c09_programs(backend, tier):
         "j / 2", "2 / j", "j + 1", "j * 2", "j - j",
         "-e.PRIM('A')", "+e.PRIM('A')", "(not e.PRIM('A'))", "-j", "(not j)", "-j.vals()", "(e.PRIM('A') > 1)", "(1 == e.PRIM('A'))", "(j.vals() > 1)",
         "(e.PRIM('A').Select(lambda k: k.pt()) > 1)", "(e.PRIM('A') == e.PRIM('A'))",
+        "('hi' if j.pt() > 1 else 'lo')", "(j.vals() if j.pt() > 1 else j.vals())", "(1.0 if j.pt() > 1 else 'lo')",
         "round(j.pt(), 2)", "sin(j.pt(), 1)", "sqrt()", "pow(j.pt())", "pow(j.pt(), 2, 3)", "atan2(j.pt())", "fma(j.pt(), 2)",
         "'a' / j.pt()", "j.pt() / 'a'", "'a' + j.pt()", "j.pt() * 'a'",
         "j.vals() + 1", "j.vals() / 2", "1 / j.vals()",
